@@ -378,6 +378,7 @@ Definition wire_spec (w : wire) (o : option status) : option status :=
 Definition obs_spec (c : config) (t : table) (e : event) : option status :=
   match e with
   | EOk | EOkWire | ESilent _ | EProxyPush _ | EInspect _ => None
+  | EAppCustom _ ann => Some ann
   | EReturn n => sget t n
   | ECopy n cause =>
       option_map (fun s => mkStatus (st_code s) (st_msg s) (Some cause)) (sget t n)
@@ -411,10 +412,11 @@ Lemma step_safe c t st e :
   R c st (fst (step c t st e))
   /\ (is_inspect e = false -> snd (step c t st e) = obs_spec c t e).
 Proof.
-  intros Hsafe G. unfold cfg_safe in Hsafe. apply andb_prop in Hsafe as [Hp Hb].
+  intros Hsafe G. unfold cfg_safe in Hsafe. apply andb_prop in Hsafe as [Hsafe Hctor].
+  apply andb_prop in Hsafe as [Hp Hb].
   apply negb_true_iff in Hp. apply negb_true_iff in Hb.
   destruct (good_slot_next _ _ G) as [Gs Gn].
-  destruct e as [| |n|n cause|w n|w n cause|w s|n|f|f|shared errstat omsg ocode|i]; cbn [step is_inspect obs_spec].
+  destruct e as [| |n|n cause|w n|w n cause|w s|n|f|f|shared errstat omsg ocode|base ann|i]; cbn [step is_inspect obs_spec].
   - split; [apply R_refl | reflexivity].
   - split; [eapply over_wire_R; eauto|]. intros _. erewrite over_wire_obs; eauto.
   - split.
@@ -491,6 +493,17 @@ Proof.
       split.
       * eapply R_trans; [exact Ra|]. eapply R_trans; [exact R2|]. eapply over_wire_R; eauto.
       * intros _. erewrite over_wire_obs; eauto. cbn. rewrite D2. reflexivity.
+  - rewrite Hctor. cbn [fst snd alloc].
+    set (a := next (hp st)).
+    set (h0 := {| cells := (a, base) :: cells (hp st); next := a + 1 |}).
+    split.
+    + eapply R_trans.
+      * apply (R_with_heap_grow c st (write h0 a ann)).
+        -- cbn. lia.
+        -- intros x Hx. rewrite get_write_other by (subst a; lia).
+           change h0 with (fst (alloc (hp st) base)). apply get_alloc_other. subst a. lia.
+      * apply R_hold. intros x Hx. inversion Hx; subst. cbn. lia.
+    + intros _. apply get_write_same.
   - split; [apply R_refl | discriminate].
 Qed.
 
